@@ -355,13 +355,40 @@ def run_batch(ctx, exe, drv, scheds):
         exp.append(e)
         final.append(s)
     lines = [s.line() for s in final]
-    ok, iout, err = vlib.par_run_lines(exe, [], lines)
+    import subprocess
+    try:
+        ok, iout, err = vlib.par_run_lines(exe, [], lines, timeout=900)
+    except subprocess.TimeoutExpired:
+        ctx.tie_broken("harness c09 did not finish within 900 s although every case has its own deadline", "")
+        return
     if not ok:
-        ctx.tie_broken("harness c09 crashed or hung", err)
+        ctx.tie_broken("harness c09 crashed", err)
         return
     for s, e, io in zip(final, exp, iout):
         if e is None:
             continue
+        if io == "SKIPPED":
+            # the harness process had three hanging cases before this one and gave up on the rest of its share
+            ctx.count("schedules skipped after three hanging cases in one harness process")
+            continue
+        if io == "HANG":
+            # no operation of a schedule waits for bytes that are not already queued (g, r: non-blocking; t: 1 ms;
+            # T, i only when the whole message is there), so a case that does not finish within its deadline
+            # (3 s) means some receive call never returned.  It counts after a second run, alone, with 10 s.
+            ctx.count("cases that exceeded their 3 s deadline")
+            if ctx.extra.get("hang_reruns", 0) >= 2:
+                continue
+            ctx.extra["hang_reruns"] = ctx.extra.get("hang_reruns", 0) + 1
+            rc, again, _ = vlib.run_lines(exe, [], [s.line()], timeout=120, env={"C09_CASE_MS": "10000"})
+            io = again[0] if rc == 0 and len(again) == 1 else "HANG"
+            if io == "HANG":
+                ctx.disagreements_checked += 1
+                ctx.violation("a receive call never returned (schedule not finished after 10 s) although every blocking call of the "
+                              "schedule is made only when the whole message it waits for is already queued; the model delivers: %s"
+                              % ",".join(t[:1] if t.startswith("M") else t for t in e)[:300],
+                              {"line": s.line(), "canons": [m.canon for m in s.msgs], "specs": [m.spec for m in s.msgs],
+                               "lens": [m.n for m in s.msgs], "impl": ["HANG"], "model": [t[:200] for t in e]})
+                continue
         if io.startswith("SCHEDERR"):
             ctx.count("schedule not executable (peer write would block)")
             continue
@@ -535,7 +562,7 @@ def replay(ctx, body):
     data = body["data"]
     exe = vlib.harness_build(["c09"])["c09"]
     line = data["line"]
-    rc, out, err = vlib.run_lines(exe, [], [line])
+    rc, out, err = vlib.run_lines(exe, [], [line], timeout=120, env={"C09_CASE_MS": "20000"})
     parts = line.split(" ")
     nf = [] if parts[2] == "-" else [int(x) for x in parts[2].split(".")]
     msgs = []
@@ -545,6 +572,10 @@ def replay(ctx, body):
         if "lens" in data:
             m.n = data["lens"][i]
         msgs.append(m)
+    if out and out[0] == "HANG":
+        print("events :", parts[3] if len(parts) > 3 else "")
+        print("REPRODUCED: a receive call never returned (case deadline expired)")
+        return 1
     toks = out[0].split(",") if out else []
     why = property_verdict(toks, msgs, parts[3].split(",") if len(parts) > 3 and "lens" in data else None) if not (out and out[0].startswith("SCHEDERR")) else None
     print("events :", parts[3] if len(parts) > 3 else "")
